@@ -18,6 +18,12 @@ type guardSpec struct {
 	ydeps []string       // for sides the engine cannot name: dependency atoms (suffixes) the side must have
 	count int            // minimum number of distinct guard sites (same comparison made in several places)
 	cover string         // access-path pattern the guard must hold for all elements of (full-range loops)
+	alt   *guardAlt      // an equivalent formulation of the same refusal
+}
+
+type guardAlt struct {
+	op   token.Token
+	x, y *regexp.Regexp
 }
 
 func rx(s string) *regexp.Regexp { return regexp.MustCompile("^" + s + "$") }
@@ -25,24 +31,26 @@ func rx(s string) *regexp.Regexp { return regexp.MustCompile("^" + s + "$") }
 const qrp = `[a-zA-Z0-9_.]*\.OpeningProof\.QueryRoundProofs\[i\]`
 
 var guardTable = []guardSpec{
-	{"cap-size/commit", "every commit-phase cap has 2^CapHeight entries", token.EQL, rx(`<<\(1,.*\.CapHeight\)`), rx(`len\(.*\.CommitPhaseMerkleCaps\[i\]\)`), nil, 1, ".OpeningProof.CommitPhaseMerkleCaps[]"},
-	{"evalproofs=oracles|caps", "every query round opens exactly one leaf per oracle and per initial cap (count 4), checked both by the shape validation and by the initial-tree verification", token.EQL, rx(`len\(` + qrp + `\.InitialTreesProof\.EvalsProofs\)`), rx(`4|len\(local.*\)`), nil, 2, ".OpeningProof.QueryRoundProofs[]"},
-	{"leaf=numpolys", "every opened initial leaf has as many elements as its oracle has polynomials", token.EQL, rx(`len\(` + qrp + `\.InitialTreesProof\.EvalsProofs\[i\]\.Elements\)`), rx(`.*`), []string{".NumWires", ".QuotientDegreeFactor", ".NumPartialProducts"}, 1, ".OpeningProof.QueryRoundProofs[].InitialTreesProof.EvalsProofs[]"},
-	{"initpath+cap=lde", "initial Merkle path length + CapHeight = LDE bits", token.EQL, rx(`\+\(len\(` + qrp + `\.InitialTreesProof\.EvalsProofs\[i\]\.MerkleProof\.Siblings\),.*\.CapHeight\)`), rx(`\+\(.*\.DegreeBits,.*\.RateBits\)`), nil, 1, ".OpeningProof.QueryRoundProofs[].InitialTreesProof.EvalsProofs[]"},
-	{"steps=arities", "every query round has one step per reduction arity", token.EQL, rx(`len\(` + qrp + `\.Steps\)`), rx(`len\(.*\.ReductionArityBits\)`), nil, 1, ".OpeningProof.QueryRoundProofs[]"},
-	{"evals=arity", "every step has 2^arityBits evaluations (checked by the shape validation and again by the interpolation)", token.EQL, rx(`len\(` + qrp + `\.Steps\[i\]\.Evals\)`), rx(`<<\(1,.*\.ReductionArityBits\[i\]\)`), nil, 2, ".OpeningProof.QueryRoundProofs[].Steps[]"},
-	{"steppath+cap=codeword", "step Merkle path length + CapHeight = remaining codeword bits", token.EQL, rx(`\+\(len\(` + qrp + `\.Steps\[i\]\.MerkleProof\.Siblings\),.*\.CapHeight\)`), rx(`.*`), []string{".DegreeBits", ".RateBits", ".ReductionArityBits[*]"}, 1, ".OpeningProof.QueryRoundProofs[].Steps[]"},
-	{"finalpoly-len", "the final polynomial has 2^(DegreeBits − Σ arities) coefficients", token.EQL, rx(`len\(.*\.OpeningProof\.FinalPoly\.Coeffs\)`), rx(`.*`), []string{".DegreeBits", ".ReductionArityBits[*]"}, 1, ""},
-	{"rounds=config", "the number of query round proofs equals the configured NumQueryRounds", token.EQL, rx(`.*\.NumQueryRounds`), rx(`len\(.*\.OpeningProof\.QueryRoundProofs\)`), nil, 1, ""},
-	{"indices=rounds", "the number of query indices drawn equals the number of query round proofs", token.EQL, rx(`len\(local(:.*)?\)`), rx(`len\(.*\.OpeningProof\.QueryRoundProofs\)`), nil, 1, ""},
-	{"capbits=4", "the Merkle check is given exactly 4 cap-index bits (both tree families)", token.EQL, rx(`len\(X:ToBinary@.*\)`), rx(`4`), nil, 2, ""},
-	{"cap=16/initial", "the Merkle check of the initial trees is given 16-entry caps", token.EQL, rx(`len\(.*ConstantSigmasCap.*\)|len\(.*WiresCap.*\)`), rx(`16`), nil, 1, ""},
-	{"cap=16/commit", "the Merkle check of the commit-phase trees is given 16-entry caps", token.EQL, rx(`len\(.*\.CommitPhaseMerkleCaps\[i\]\)`), rx(`16`), nil, 1, ""},
-	{"batches=reduced", "one reduced opening per opening batch", token.EQL, rx(`2|len\(local.*\)`), rx(`len\(local.*\)`), nil, 1, ""},
-	{"interp-lengths", "interpolation points, values and weights have equal lengths (two comparisons)", token.EQL, rx(`len\(local:len\(` + qrp + `\.Steps\[i\]\.Evals\)\)`), rx(`len\(local:len\(` + qrp + `\.Steps\[i\]\.Evals\)\)`), nil, 2, ""},
-	{"arity<=8", "the arity fits the 8-bit index reversal used for the coset permutation", token.LEQ, rx(`.*\.ReductionArityBits\[i\]`), rx(`8`), nil, 1, ""},
-	{"arity=4", "the within-coset selection tree assumes arity bits = 4", token.EQL, rx(`.*\.ReductionArityBits\[i\]`), rx(`4`), nil, 1, ""},
-	{"gate-constraints-overflow", "a gate producing more constraints than NumGateConstraints is refused", token.LSS, rx(`iv\d+|\[i\]|i`), rx(`.*\.numGateConstraints`), nil, 1, ""},
+	{"cap-size/commit", "every commit-phase cap has 2^CapHeight entries", token.EQL, rx(`<<\(1,.*\.CapHeight\)`), rx(`len\(.*\.CommitPhaseMerkleCaps\[i\]\)`), nil, 1, ".OpeningProof.CommitPhaseMerkleCaps[]", nil},
+	{"evalproofs=oracles|caps", "every query round opens exactly one leaf per oracle and per initial cap (count 4), checked both by the shape validation and by the initial-tree verification", token.EQL, rx(`len\(` + qrp + `\.InitialTreesProof\.EvalsProofs\)`), rx(`4|len\(local.*\)`), nil, 2, ".OpeningProof.QueryRoundProofs[]", nil},
+	{"leaf=numpolys", "every opened initial leaf has as many elements as its oracle has polynomials", token.EQL, rx(`len\(` + qrp + `\.InitialTreesProof\.EvalsProofs\[i\]\.Elements\)`), rx(`.*`), []string{".NumWires", ".QuotientDegreeFactor", ".NumPartialProducts"}, 1, ".OpeningProof.QueryRoundProofs[].InitialTreesProof.EvalsProofs[]", nil},
+	{"initpath+cap=lde", "initial Merkle path length + CapHeight = LDE bits", token.EQL, rx(`\+\(len\(` + qrp + `\.InitialTreesProof\.EvalsProofs\[i\]\.MerkleProof\.Siblings\),.*\.CapHeight\)`), rx(`\+\(.*\.DegreeBits,.*\.RateBits\)`), nil, 1, ".OpeningProof.QueryRoundProofs[].InitialTreesProof.EvalsProofs[]", nil},
+	{"steps=arities", "every query round has one step per reduction arity", token.EQL, rx(`len\(` + qrp + `\.Steps\)`), rx(`len\(.*\.ReductionArityBits\)`), nil, 1, ".OpeningProof.QueryRoundProofs[]", nil},
+	{"evals=arity", "every step has 2^arityBits evaluations (checked by the shape validation and again by the interpolation)", token.EQL, rx(`len\(` + qrp + `\.Steps\[i\]\.Evals\)`), rx(`<<\(1,.*\.ReductionArityBits\[i\]\)`), nil, 2, ".OpeningProof.QueryRoundProofs[].Steps[]", nil},
+	{"steppath+cap=codeword", "step Merkle path length + CapHeight = remaining codeword bits", token.EQL, rx(`\+\(len\(` + qrp + `\.Steps\[i\]\.MerkleProof\.Siblings\),.*\.CapHeight\)`), rx(`.*`), []string{".DegreeBits", ".RateBits", ".ReductionArityBits[*]"}, 1, ".OpeningProof.QueryRoundProofs[].Steps[]", nil},
+	{"finalpoly-len", "the final polynomial has 2^(DegreeBits − Σ arities) coefficients", token.EQL, rx(`len\(.*\.OpeningProof\.FinalPoly\.Coeffs\)`), rx(`.*`), []string{".DegreeBits", ".ReductionArityBits[*]"}, 1, "", nil},
+	{"rounds=config", "the number of query round proofs equals the configured NumQueryRounds", token.EQL, rx(`.*\.NumQueryRounds`), rx(`len\(.*\.OpeningProof\.QueryRoundProofs\)`), nil, 1, "", nil},
+	{"indices=rounds", "the number of query indices drawn equals the number of query round proofs", token.EQL, rx(`len\(local(:.*)?\)`), rx(`len\(.*\.OpeningProof\.QueryRoundProofs\)`), nil, 1, "", nil},
+	{"capbits=4", "the Merkle check is given exactly 4 cap-index bits (both tree families)", token.EQL, rx(`len\(X:ToBinary@.*\)`), rx(`4`), nil, 2, "", nil},
+	{"cap=16/initial", "the Merkle check of the initial trees is given 16-entry caps", token.EQL, rx(`len\(.*ConstantSigmasCap.*\)|len\(.*WiresCap.*\)`), rx(`16`), nil, 1, "", nil},
+	{"cap=16/commit", "the Merkle check of the commit-phase trees is given 16-entry caps", token.EQL, rx(`len\(.*\.CommitPhaseMerkleCaps\[i\]\)`), rx(`16`), nil, 1, "", nil},
+	{"batches=reduced", "one reduced opening per opening batch", token.EQL, rx(`2|len\(local.*\)`), rx(`len\(local.*\)`), nil, 1, "", nil},
+	{"interp-lengths", "interpolation points, values and weights have equal lengths (two comparisons)", token.EQL, rx(`len\(local:len\(` + qrp + `\.Steps\[i\]\.Evals\)\)`), rx(`len\(local:len\(` + qrp + `\.Steps\[i\]\.Evals\)\)`), nil, 2, "", nil},
+	{"arity<=8", "the arity fits the 8-bit index reversal used for the coset permutation", token.LEQ, rx(`.*\.ReductionArityBits\[i\]`), rx(`8`), nil, 1, "", nil},
+	{"arity=4", "the within-coset selection tree assumes arity bits = 4", token.EQL, rx(`.*\.ReductionArityBits\[i\]`), rx(`4`), nil, 1, "", nil},
+	{"gate-constraints-overflow", "a gate producing more constraints than NumGateConstraints is refused", token.LSS, rx(`iv\d+|\[i\]|i`), rx(`.*\.numGateConstraints`), nil, 1, "",
+		// once per gate instead of once per constraint: len(filtered) ≤ NumGateConstraints
+		&guardAlt{token.LEQ, rx(`len\(.*\)`), rx(`.*\.numGateConstraints`)}},
 }
 
 func mirror(op token.Token) token.Token {
@@ -99,15 +107,19 @@ func rulesC20(cx *Ctx) []Obligation {
 				op   token.Token
 			}{{g.x, g.y, g.op}, {g.y, g.x, mirror(g.op)}} {
 				dx, dy := descr(o.x), descr(o.y)
+				wantOp := sp.op
 				if !sp.x.MatchString(dx) || !sp.y.MatchString(dy) {
-					continue
+					if sp.alt == nil || !sp.alt.x.MatchString(dx) || !sp.alt.y.MatchString(dy) {
+						continue
+					}
+					wantOp = sp.alt.op
 				}
 				if len(sp.ydeps) > 0 && !depsSuffix(r, o.y, sp.ydeps) {
 					continue
 				}
 				site := r.site(g.rec)
-				if o.op != sp.op {
-					diag = append(diag, fmt.Sprintf("%s: compares %s %s %s — continues under a weaker or different condition than %s", site, dx, o.op, dy, sp.op))
+				if o.op != wantOp {
+					diag = append(diag, fmt.Sprintf("%s: compares %s %s %s — continues under a weaker or different condition than %s", site, dx, o.op, dy, wantOp))
 					continue
 				}
 				if !g.rec.Must {
